@@ -8,6 +8,8 @@ import UtilModel.Routine.ProofsObs3
 import UtilModel.Routine.ProofsObs4
 import UtilModel.Routine.ProofsObs5
 import UtilModel.Routine.ProofsObs6
+import UtilModel.Routine.ProofsObs7
+import UtilModel.Routine.ProofsAsm
 import UtilModel.Routine.ProofsRT
 import UtilModel.Routine.Monitors
 import UtilModel.Routine.Backoff
@@ -151,20 +153,48 @@ theorem C05c_obs (es : List Ev) (s : St) (hr : model.run model.init es = some s)
   have : monC05c.run monC05c.init (es.filterMap model.obs) = some ms := h
   simp [ObsMonitor.accepts, this]
 
-/-- **C05, lineage clause, observable form** (`C05l_obs`): the monitor clause "an instance seen with a live context
+/-- **C05, lineage clauses, observable form** (`C05l_obs`): the monitor clauses "an instance seen with a live context
 stems from a possibly-current context, a possibly-current routine function and — for a StateRoutineContainer — a
-possibly-current, non-empty stored state" accepts the observable trace of every run of the model, with any number
+possibly-current, non-empty stored state" and "at a quiescence line at most one executing instance has a live
+context, and it stems from a possibly-current context that the environment has not cancelled, a possibly-current
+function and a non-empty state" accept the observable trace of every run of the model, with any number
 of concurrent callers. "Possibly current" is the monitor's `Reg` bookkeeping for each of the three registers: the
 value was given to a call that is in flight, or to a call that has returned and is not known to be overwritten by
 a call invoked after its return (SetState / SwapValue count only if they report a change). Rests on the last-writer
 lemma (`ProofsReg.lean`), `step_ctx` / `step_faeq` (who writes the three registers), `live_current` (a live
 instance is the current instance of the current record, under the container's context) and `K4` (in state mode the
-current record is the closure over the stored state and function). This is the second probe clause of `monC05`. -/
+current record is the closure over the stored state and function); at a quiescence point every announced
+cancellation of a root context has been performed (`quiescent_pcancel`). These are the second probe clause and the
+quiescence clause of `monC05`, except for the comparison with the last GetState result. -/
 theorem C05l_obs (es : List Ev) (s : St) (hr : model.run model.init es = some s) :
     monC05l.accepts (es.filterMap model.obs) = true := by
-  obtain ⟨ms, h, _⟩ := lin_run model.init s {} es good_init.recs cur_init i1_init k4_init linLink_init hr
+  obtain ⟨ms, h, _⟩ := lin_run model.init s {} es good_init cur_init i1_init k4_init linLink_init {} linkA_init hr
   have : monC05l.run monC05l.init (es.filterMap model.obs) = some ms := h
   simp [ObsMonitor.accepts, this]
+
+/-- **C05, stored state at quiescence, observable form** (`C05g_obs`): for a StateRoutineContainer, the single
+executing instance with a live context at a quiescence line was given the state that GetState returned — provided
+that GetState call overlapped no SetState / SwapValue call and none has been invoked since (otherwise the monitor
+holds no value to compare with). Holds for every run of the model. Rests on `step_sval` (only the critical sections
+of SetState / SwapValue write the stored state) and `K4`. -/
+theorem C05g_obs (es : List Ev) (s : St) (hr : model.run model.init es = some s) :
+    monC05g.accepts (es.filterMap model.obs) = true := by
+  obtain ⟨ms, h, _⟩ := glink_run model.init s {} es good_init.recs cur_init i1_init k4_init glink_init hr
+  have : monC05g.run monC05g.init (es.filterMap model.obs) = some ms := h
+  simp [ObsMonitor.accepts, this]
+
+/-- **C05, observable form** (`C05_obs`): monitor C05 — the monitor the driver evaluates on every history recorded
+from the real code — accepts the observable trace of **every** run of the model, with any number of concurrent
+callers: superseded instances are never seen live once the superseding call has returned (`C05a_obs`); an
+instance seen live stems from a possibly-current context, routine and stored state, and at quiescence at most one
+executing instance is live, from an uncancelled possibly-current context (`C05l_obs`), carrying the state an
+undisturbed GetState returned (`C05g_obs`); `monC05_of_clauses`: the monitor is the conjunction of these clause
+monitors. Together with `accepts_sound` (a history the checker accepts is a trace of the model) this gives: a
+history that the correspondence check accepts and monitor C05 rejects cannot exist — a C05 alarm always comes with
+a correspondence failure or is a genuine deviation of the implementation from the model. -/
+theorem C05_obs (es : List Ev) (s : St) (hr : model.run model.init es = some s) :
+    monC05.accepts (es.filterMap model.obs) = true :=
+  monC05_of_clauses _ (C05a_obs es s hr) (C05l_obs es s hr) (C05g_obs es s hr)
 
 /-- an instance that has exited has a cancelled context -/
 theorem exited_cancelled (es : List Ev) (s : St) (hr : model.run model.init es = some s)
